@@ -437,6 +437,18 @@ def special_value_cases(tier):
     yield dict(name="x ** y, base exactly 0, array exponent (operator)", op="power", operands=[xz, yz], kinds=("t", "a"), mg=lambda x, y: x ** y, shadow=lambda x, y: x ** y, np=np.power)
     yield dict(name="x[:, None] ** arange(4), base with zeros", op="power", operands=[np.array([0.0, 2.0])], mg=lambda x: x[:, None] ** np.arange(4.0),
                shadow=lambda x: x[:, None] ** np.arange(4.0), np=None)
+    # gradients that are tiny but not zero: compared *relatively* (case flag rel=True)
+    from mygrad.nnet.losses import focal_loss
+
+    tiny = [np.array([3e-162, 2.0]), np.array([1e-160, 3.0]), np.array([1.0, 0.5])]
+    yield dict(name="multiply_sequence with a subnormal product", op="multiply_sequence", operands=tiny, mg=lambda a, b, c: mg.multiply_sequence(a, b, c),
+               shadow=lambda a, b, c: a * b * c, np=None, rel=True, kinds=("t", "t", "a"))  # (the third operand's gradient a*b is itself subnormal: below the complex step's reach)
+    yield dict(name="multiply with a subnormal product", op="multiply", operands=tiny[:2], mg=lambda a, b: mg.multiply(a, b), shadow=lambda a, b: a * b, np=None, rel=True)
+    for gamma in (0.5, 0.25, 2.0):
+        pnear = np.array([[1.0 - 2.0 ** -30, 2.0 ** -30], [0.75, 0.25]])
+        yield dict(name="focal_loss gamma=%g, true-class probability within 1e-8 of 1" % gamma, op="focal_loss", operands=[pnear],
+                   mg=(lambda g_: lambda p: focal_loss(p, np.array([0, 1]), alpha=1.0, gamma=g_))(gamma),
+                   shadow=(lambda g_: lambda p: np.stack([-(1 - p[0, 0]) ** g_ * np.log(p[0, 0]), -(1 - p[1, 1]) ** g_ * np.log(p[1, 1])]))(gamma), np=None, rel=True)
     # where= masks in every container NumPy accepts (list, tuple, tensor, NumPy bool scalar, 0-d array), for a unary and two binary ufuncs
     mvals = [True, False, True]
     mkinds = [("list", lambda: list(mvals)), ("tuple", lambda: tuple(mvals)), ("tensor", lambda: mg.tensor(mvals)), ("bool array", lambda: np.array(mvals)),
